@@ -1,4 +1,5 @@
 """C19 — compiled templates produce what the template language defines (tornado.template)."""
+import posixpath
 import re
 from core.wire import atom, line, parse_reply, Atom
 
@@ -13,6 +14,7 @@ THEOREMS = [_T + n for n in [
     "gen_balanced", "gen_stack_balanced", "control_body_nonempty",
     "interp_matches_gen_structure_partial", "interp_matches_gen_outcome_partial",
     "parse_flat_roundtrip", "bytes_literal_roundtrip",
+    "cache_keyed_by_resolved_name", "load_history_independent", "resolve_toplevel",
 ]]
 TRUSTED = [
     "CPython executes the generated source as Python defines (exec of Template.code); the generated source itself is "
@@ -22,7 +24,12 @@ TRUSTED = [
 ]
 ASSUMPTIONS = [
     "template text consists of Unicode scalar values (lone surrogates cannot be UTF-8 encoded by _Text.generate)",
-    "loaders are DictLoaders over flat file names (resolve_path is the identity); include/extends graphs are acyclic, "
+    "loaders are DictLoaders (flat names and directory-structured names: sub-directories, `/absolute` and `<pseudo>` "
+    "keys, relative references with `./`, `../`, `//`, trailing `/`; DictLoader.resolve_path = posixpath "
+    "dirname/join/normpath is modelled in C19/Path.lean and compared directly in the `prim resolve` stream; "
+    "tornado.template.Loader shares BaseLoader.load and is not run); several top-level loads on ONE loader instance "
+    "are modelled with the cache carried along (compileSeq) only for loaders without malformed files; "
+    "include/extends graphs are acyclic, "
     "`{% extends %}` occurs only at the top level of entry/parent files (elsewhere _ExtendsBlock.generate raises "
     "NotImplementedError: outside the language), at most one file of a loader is malformed",
     "executed templates (stream ii) use the fixed expression pool: identifiers, `not x`, modules M(x), apply/autoescape "
@@ -33,7 +40,9 @@ ASSUMPTIONS = [
     "the code-generation stream (i) but not in the interpretation stream (ii)",
     "values of type bytes are valid UTF-8",
 ]
-RULE = ("grammar-directed templates (nesting <= 4, DictLoader with extends chains <= 3 and includes, all whitespace modes, "
+RULE = ("grammar-directed templates (nesting <= 4, DictLoader with extends chains <= 3 and includes, flat and "
+        "directory-structured names with clashing base names / decoy files stored under the unresolved spelling of a "
+        "relative reference, 0-6 earlier loads on the same loader instance in several orders, all whitespace modes, "
         "literal text with quotes/backslashes/braces/!/non-ASCII/<pre>/Unicode spaces), a fault-injection stream (one "
         "malformed directive at a known place), a mutation stream, a brace-soup stream and a primitives stream; "
         "non-trivial = at least one directive nested in another or a loader with >= 2 files, or a ParseError; "
@@ -52,6 +61,12 @@ CLAUSES = {
         "parse_error_line, unterminated_error_line, lex_line_invariant + fault-injection oracle (file and line span of the injected fault)",
     "literal text is reproduced byte-for-byte apart from the selected whitespace filtering":
         "lex_src, text_verbatim, text_only_output, escape_sequences, triple_brace_innermost, filter_all_identity, filter_single_idempotent, filter_whitespace_idempotent (all three modes; also checked on every filter case)",
+    "extends, block and include through a loader":
+        "names are resolved against the file that mentions them (Path.lean resolvePath = DictLoader.resolve_path, tied in the "
+        "`prim resolve` stream; Model.resolveBody) and the cache is keyed by the resolved name: cache_keyed_by_resolved_name, "
+        "load_history_independent (two load histories agree on every cached name), resolve_toplevel; tie: compileSeq (several "
+        "loads on ONE loader instance, cache carried along) == Template.code of every load, and the oracle interprets every "
+        "loaded template on its own (history_cases: all orders of earlier loads over clashing base names)",
     "termination of the reader": "scan_total (structural recursion, no fuel) + lex_src",
 }
 PARALLEL = False   # measured: 2600 cases take 3 s in-process, 20 s through a fork pool
@@ -145,11 +160,12 @@ def rand_text(rng, maxn=6):
 
 
 class Ctx:
-    def __init__(self, depth, in_loop=False, vars_=(), files=(), exec_ok=True, in_finally=False):
+    def __init__(self, depth, in_loop=False, vars_=(), files=(), exec_ok=True, in_finally=False, cur=None):
         self.depth, self.in_loop, self.vars, self.files, self.exec_ok, self.in_finally = depth, in_loop, tuple(vars_), files, exec_ok, in_finally
+        self.cur = cur        # name of the file being generated (None: flat names, references are spelled as they are)
 
     def sub(self, **kw):
-        c = Ctx(self.depth + 1, self.in_loop, self.vars, self.files, self.exec_ok, self.in_finally)
+        c = Ctx(self.depth + 1, self.in_loop, self.vars, self.files, self.exec_ok, self.in_finally, self.cur)
         for k, v in kw.items():
             setattr(c, k, v)
         return c
@@ -161,6 +177,7 @@ class TGen:
     def __init__(self, rng, max_depth=4, wild=False):
         self.rng, self.max_depth, self.nvar, self.wild = rng, max_depth, 0, wild
         self.feat = set()
+        self.refs = []        # (file that mentions, spelling, resolved target) of every include/extends written
 
     def fresh(self):
         self.nvar += 1
@@ -192,7 +209,7 @@ class TGen:
     def body(self, ctx, lo=0, hi=4):
         r = self.rng
         out = []
-        ctx = Ctx(ctx.depth, ctx.in_loop, ctx.vars, ctx.files, ctx.exec_ok, ctx.in_finally)
+        ctx = Ctx(ctx.depth, ctx.in_loop, ctx.vars, ctx.files, ctx.exec_ok, ctx.in_finally, ctx.cur)
         for _ in range(r.randint(lo, hi)):
             out.append(self.item(ctx))
         return "".join(out)
@@ -251,9 +268,13 @@ class TGen:
                 return self.tag("if " + self.cond(ctx)) + self.tag(kw) + self.tag("end")
             return self.tag(kw)
         if k < 0.72 and ctx.files:
-            self.feat.add("include")
             q = r.choice(['"', "'", "", '"'])
-            return self.tag("include " + q + r.choice(ctx.files) + q)
+            name = self.spell(r.choice(ctx.files), ctx.cur)
+            if name is None:
+                self.feat.add("text")
+                return rand_text(r, 3)
+            self.feat.add("include")
+            return self.tag("include " + q + name + q)
         if not deep:
             self.feat.add("text")
             return rand_text(r, 3)
@@ -304,6 +325,127 @@ class TGen:
             return self.tag("apply " + fn) + self.body(ctx.sub(in_loop=False, in_finally=False)) + self.tag("end")
         self.feat.add("block")
         return self.tag("block " + r.choice(BLOCK_NAMES)) + self.body(ctx.sub(vars=(), in_loop=False, in_finally=False)) + self.tag("end")
+
+    def spell(self, target, cur):
+        """how the file `cur` refers to the file `target`: a spelling that DictLoader.resolve_path maps to `target`
+        (None when there is none).  Flat generators (cur None) use the name itself."""
+        if cur is None:
+            return target
+        r = self.rng
+        if not py_unresolved(cur, target):
+            d, t = _comps(posixpath.dirname(cur)), _comps(target)
+            k = 0
+            while k < len(d) and k < len(t) - 1 and d[k] == t[k]:
+                k += 1
+            if ".." in d[k:]:
+                return None
+            rel = "/".join([".."] * (len(d) - k) + t[k:])
+            v = r.random()
+            if v < 0.70:
+                s = rel
+            elif v < 0.78:
+                s = "./" + rel
+            elif v < 0.84:
+                s = rel.replace("/", "//", 1) if "/" in rel else "./" + rel
+            elif v < 0.90:
+                s = r.choice(["zz", "a", "admin", "."]) + "/../" + rel
+            elif v < 0.95:
+                s = rel + r.choice(["/", "/."])
+            else:
+                s = ".//" + rel
+            if py_resolve(s, cur) != target:
+                s = rel
+        else:
+            s = target
+        if py_resolve(s, cur) != target:
+            return None
+        self.refs.append((cur, s, target))
+        if s != target:
+            self.feat.add("relref")
+        return s
+
+    def loader_dirs(self):
+        """directory-structured loader -> (files, entry, decoys): the same roles as `loader`, every file in a
+        directory of its own choice; base names clash across directories; every reference is spelled relative to
+        the file that mentions it; `decoys` = extra files stored under the *unresolved* spelling of a reference
+        (what a loader that forgets to resolve would pick up)."""
+        r = self.rng
+        pool = r.choice([["", "admin/"], ["", "a/", "a/b/"], ["a/", "b/"], ["", "a/", "/abs/"], ["", "x/", "<gen>/"],
+                         ["a/", "a/b/", ""], ["admin/", "admin/inc/", ""], ["", "a/", "../"], ["a/b/", "a/c/", "a/"]])
+        n_par = r.choice([0, 0, 1, 1, 2])
+        n_inc = r.choice([0, 1, 1, 2, 3])
+        exts = [".html", ".txt", ".js", ".html", ""]
+        used = set()
+
+        def place(base):
+            for _ in range(8):
+                nm = r.choice(pool) + base
+                if nm not in used:
+                    used.add(nm)
+                    return nm
+            nm = r.choice(pool) + "q%d-%s" % (len(used), base)
+            used.add(nm)
+            return nm
+
+        bases = []
+        for i in range(n_inc + n_par + 1):
+            role = "i%d" % i if i < n_inc else ("p%d" % (i - n_inc) if i < n_inc + n_par else "e")
+            b = role + r.choice(exts)
+            if bases and r.random() < 0.35:
+                b = r.choice(bases)         # the same base name in another directory
+            bases.append(b)
+        names = [place(b) for b in bases]
+        inc_names, par_names, entry = names[:n_inc], names[n_inc:n_inc + n_par], names[-1]
+        files = []
+        for i, nm in enumerate(inc_names):
+            files.append([nm, self.body(Ctx(1, files=tuple(inc_names[i + 1:]), cur=nm), 1, 4)])
+        chain = [entry] + par_names
+        for i, nm in enumerate(chain):
+            body = self.body(Ctx(0, files=tuple(inc_names), cur=nm), 1, 5)
+            if i + 1 < len(chain):
+                up = self.spell(chain[i + 1], nm)
+                if up is not None:
+                    q = r.choice(['"', "'", ""])
+                    ext = self.tag("extends " + q + up + q)
+                    extra = "".join(self.tag("block " + r.choice(BLOCK_NAMES)) + self.body(Ctx(1, files=tuple(inc_names), cur=nm)) + self.tag("end")
+                                    for _ in range(r.randint(0, 3)))
+                    body = (rand_text(r, 2) if r.random() < 0.3 else "") + ext + extra + body
+                    self.feat.add("extends")
+            files.append([nm, body])
+        decoys = []
+        for cur, s, target in self.refs:
+            if s != target and s not in used and r.random() < 0.7:
+                used.add(s)
+                decoys.append(s)
+                text = "decoy<" + s + ">" + self.body(Ctx(1, cur=s), 0, 2)
+                if r.random() < 0.5:
+                    text += self.tag("block " + r.choice(BLOCK_NAMES)) + "decoy block" + self.tag("end")
+                files.append([s, text])
+                self.feat.add("decoy")
+        r.shuffle(files)
+        return files, entry, decoys
+
+    def loads_for(self, files, entry, decoys):
+        """names loaded (and rendered) on the same loader instance before the entry"""
+        r = self.rng
+        names = [f[0] for f in files]
+        k = r.random()
+        if k < 0.25:
+            return []
+        if k < 0.50 and decoys:
+            out = list(decoys)
+            r.shuffle(out)
+            return out[:r.randint(1, len(out))]
+        if k < 0.60:
+            return [n for n in names if n != entry]                      # everything else first, in dictionary order
+        if k < 0.68:
+            return [entry] + r.sample(names, r.randint(0, min(3, len(names))))   # the entry itself first: then it is cached
+        out = r.sample(names, r.randint(1, min(5, len(names))))
+        if r.random() < 0.2:
+            out.insert(r.randrange(len(out) + 1), r.choice(["nope.html", "./" + entry, entry + "/", "a/../" + entry]))   # KeyError: top-level names are not resolved
+        if r.random() < 0.2:
+            out.append(r.choice(out))
+        return out
 
     def loader(self):
         """-> (files [[name, text]], entry)"""
@@ -401,6 +543,51 @@ def top_level_split_points(text):
     return sorted(set(pts))
 
 
+def _comps(p):
+    return [c for c in p.split("/") if c]
+
+
+def py_unresolved(parent, name):
+    """the guard of DictLoader.resolve_path: the name is used as it is"""
+    return not parent or parent.startswith("<") or parent.startswith("/") or name.startswith("/")
+
+
+def py_resolve(name, parent):
+    """generator-side mirror of DictLoader.resolve_path (used to SPELL references and to find the reachable files;
+    the model of it is Lean `resolvePath`, tied in the `prim resolve` stream)"""
+    if py_unresolved(parent, name):
+        return name
+    return posixpath.normpath(posixpath.join(posixpath.dirname(parent), name))
+
+
+def _refs(text, parent):
+    for m in re.finditer(r"\{%\s*(?:include|extends)\s(.*?)%\}", text, re.S):
+        ref = m.group(1).strip().strip('"').strip("'")
+        if ref:
+            yield py_resolve(ref, parent)
+
+
+def cyclic(files, entry):
+    """does the include/extends graph below `entry` contain a cycle (over-approximated by a regex)?"""
+    d = dict(map(tuple, files))
+    state = {}
+
+    def visit(n):
+        if n not in d:
+            return False
+        if state.get(n) == 1:
+            return True
+        if state.get(n) == 2:
+            return False
+        state[n] = 1
+        if any(visit(m) for m in _refs(d[n], n)):
+            return True
+        state[n] = 2
+        return False
+
+    return visit(entry)
+
+
 def reachable(files, entry):
     d = dict(map(tuple, files))
     seen, todo = set(), [entry]
@@ -409,7 +596,7 @@ def reachable(files, entry):
         if n in seen or n not in d:
             continue
         seen.add(n)
-        todo += [m.group(1) for m in re.finditer(r"\{%\s*(?:include|extends)\s+[\"']?([A-Za-z0-9_.]+)", d[n])]
+        todo += list(_refs(d[n], n))
     return seen
 
 
@@ -457,23 +644,54 @@ def gen_cases(rng, tier):
               "{% raw x %}", "{% comment %}", "{% comment", "a\n\n{% if x %}\n\n", "{% apply %}\n\n{% end %}", "{% block %}\n\n{% end %}",
               "{% autoescape %}{{x}}", "{% whitespace bogus %}", "{% raw %}", "{% module %}", "<pre> a  b </pre>  c  d\n\n e", "{% end\n %}"]:
         yield {"kind": "tpl", "files": [["e.html", t]], "entry": "e.html", "ws": None, "ae": "xhtml_escape", "exec": False, "valid": None}
+    # the neighbourhood of "a relative name is resolved against the file that mentions it; the cache is keyed by the
+    # resolved name": two directories with the same base names, relative include / extends / include inside an
+    # overriding block, every order of earlier loads on the same loader instance
+    yield from history_cases(tier)
+    # DictLoader.resolve_path: all short names over {a . /} (and `..` `<`) against a set of parents
+    alpha = ["a", ".", "/"]
+    names = [""]
+    for ln in range(1, 4 if tier != "thorough" else 6):
+        names += ["".join(t) for t in __import__("itertools").product(alpha, repeat=ln)]
+    parents = [None, "", "p", "d/p", "d/e/p", "/d/p", "<s>", "<s>/p", "d//p", "./p", "../p", "d/../p", "d/", "é/p"]
+    for nm in names + ["../a", "../../a", "a/../../b", "<a", "//a/b", "a/b/../c/./d//"]:
+        for par in (parents if tier == "thorough" else parents[:9]):
+            yield {"kind": "prim", "op": "resolve", "name": nm, "parent": par}
     for _ in range(n):
         k = rng.random()
         ws = rng.choice([None, None, "all", "single", "oneline"])
         ae = rng.choice(["xhtml_escape", "xhtml_escape", None, "escape", "up"])
         if k < 0.55:
             g = TGen(rng, max_depth=rng.choice([2, 3, 4]))
+            if rng.random() < 0.45:
+                files, entry, decoys = g.loader_dirs()
+                case = {"kind": "tpl", "files": files, "entry": entry, "ws": ws, "ae": ae, "exec": True, "valid": True}
+                loads = g.loads_for(files, entry, decoys)
+                if loads:
+                    case["loads"] = loads
+                case["feat"] = sorted(g.feat | {"dirs"})
+                yield case
+                continue
             files, entry = g.loader()
-            yield {"kind": "tpl", "files": files, "entry": entry, "ws": ws, "ae": ae, "exec": True, "valid": True, "feat": sorted(g.feat)}
+            case = {"kind": "tpl", "files": files, "entry": entry, "ws": ws, "ae": ae, "exec": True, "valid": True, "feat": sorted(g.feat)}
+            if rng.random() < 0.15:
+                case["loads"] = g.loads_for(files, entry, []) or [entry]
+            yield case
         elif k < 0.72:
             g = TGen(rng, max_depth=rng.choice([1, 2, 3]))
-            files, entry = g.loader()
+            if rng.random() < 0.35:
+                files, entry, _ = g.loader_dirs()
+            else:
+                files, entry = g.loader()
             got = inject_fault(rng, files, entry)
             files, fault = got
             yield {"kind": "tpl", "files": files, "entry": entry, "ws": ws, "ae": ae, "exec": False, "valid": False, "fault": fault}
         elif k < 0.80:
             g = TGen(rng, max_depth=2)
-            files, entry = g.loader()
+            if rng.random() < 0.25:
+                files, entry, _ = g.loader_dirs()
+            else:
+                files, entry = g.loader()
             files = [f for f in files if f[0] == entry] if rng.random() < 0.5 else files
             fi = rng.randrange(len(files))
             t = files[fi][1]
@@ -489,17 +707,67 @@ def gen_cases(rng, tier):
                 else:
                     t = t[:i]
             files[fi][1] = t
+            if cyclic(files, entry):
+                continue        # an edit made a file include itself (RecursionError): outside the language (ASSUMPTIONS)
             yield {"kind": "tpl", "files": files, "entry": entry, "ws": ws, "ae": ae, "exec": False, "valid": None, "mut": True}
         elif k < 0.88:
             t = "".join(rng.choice(SOUP) for _ in range(rng.randint(1, 14)))
             files = [["e.txt", t]] + ([["i0", rng.choice(["inc", "{{x}}", "{% block b %}q{% end %}"])]] if "i0" in t else [])
             yield {"kind": "tpl", "files": files, "entry": "e.txt", "ws": ws, "ae": ae, "exec": False, "valid": None, "soup": True}
-        elif k < 0.96:
+        elif k < 0.945:
             t = "".join(rng.choice(TEXT_ATOMS + [" ", "\n", "\t", " \n", "\n ", "  "]) for _ in range(rng.randint(0, 12)))
             yield {"kind": "prim", "op": "filter", "mode": rng.choice(WS_MODES), "text": t}
+        elif k < 0.96:
+            pa = ["a", "b.html", "..", ".", "", "", "/", "admin", "<s>", " ", "é", "x y", "...", "a.b", "\n", "'"]
+            mk = lambda lo, hi: rng.choice(["", "", "/", "//", "///", "./", "../"]) + "/".join(rng.choice(pa) for _ in range(rng.randint(lo, hi)))
+            yield {"kind": "prim", "op": "resolve", "name": mk(0, 5), "parent": rng.choice([None, mk(0, 4), mk(1, 3), mk(1, 3)])}
         else:
             b = bytes(rng.choice([39, 34, 92, 10, 13, 9, 0, 65, 127, 128, 255, 32, rng.randrange(256)]) for _ in range(rng.randint(0, 8)))
             yield {"kind": "prim", "op": "repr", "bytes": b.hex()}
+
+
+def history_cases(tier):
+    """systematic: one loader, the same base names at the top level and in sub-directories, a sub-directory template
+    that refers to its sibling by relative name, and every order of earlier loads (on the SAME loader instance)."""
+    import itertools
+    base = {
+        "footer.html": "root footer {{ sx }}",
+        "base.html": "root base [{% block b1 %}root b1{% end %}]",
+        "admin/footer.html": "admin footer {{ n5 }}",
+        "admin/base.html": "admin base [{% block b1 %}admin b1{% end %}]",
+        "admin/inc/footer.html": "inc footer",
+        "../footer.html": "outside footer",
+    }
+    entries = {
+        "admin/page.html": "page: {% include 'footer.html' %}",
+        "admin/page2.html": "page2: {% include \"./footer.html\" %}|{% include ../footer.html %}|{% include inc/footer.html %}",
+        "admin/child.html": "{% extends 'base.html' %}{% block b1 %}child{% end %}",
+        "admin/child2.html": "{% extends \"../base.html\" %}{% block b1 %}child2 {% include 'footer.html' %}{% end %}",
+        "admin/inc/deep.html": "{% include '../footer.html' %}+{% include '../../footer.html' %}+{% include footer.html %}",
+        "admin/grand.html": "{% extends 'child.html' %}{% block b1 %}grand {% include \"inc/footer.html\" %}{% end %}",
+        "top.html": "{% include 'admin/page.html' %}/{% include \"footer.html\" %}/{% include '../footer.html' %}",
+        "/abs/page.html": "{% include 'footer.html' %}",
+        "<s>/page.html": "{% include 'footer.html' %}{% include admin/footer.html %}",
+    }
+    allf = dict(base)
+    allf.update(entries)
+    files = [[k, v] for k, v in allf.items()]
+    pre_pool = ["footer.html", "base.html", "admin/footer.html", "admin/base.html", "../footer.html", "admin/inc/footer.html"]
+    for entry in entries:
+        orders = [()]
+        for k in (1, 2):
+            orders += list(itertools.permutations(pre_pool[:4], k))
+        orders += [tuple(pre_pool), tuple(reversed(pre_pool)), (entry,), ("footer.html", entry, "base.html")]
+        orders += [(e2,) for e2 in entries if e2 != entry]
+        if tier == "thorough":
+            orders += list(itertools.permutations(pre_pool[:4], 3)) + list(itertools.permutations(pre_pool[:4], 4))
+        for ws in ([None] if tier != "thorough" else [None, "all"]):
+            for o in orders:
+                case = {"kind": "tpl", "files": files, "entry": entry, "ws": ws, "ae": "xhtml_escape", "exec": True, "valid": True,
+                        "feat": ["dirs", "history"]}
+                if o:
+                    case["loads"] = list(o)
+                yield case
 
 
 # ----------------------------------------------------------------------------------------------- implementation
@@ -555,23 +823,32 @@ def run_template(case, env=None):
     T.compile = soft_compile
     try:
         loader = T.DictLoader(dict((n, t) for n, t in case["files"]), autoescape=case["ae"], whitespace=case["ws"])
-        res = {}
-        tpl = None
-        try:
-            tpl = loader.load(case["entry"])
-            res["compile"] = ["code", tpl.code.split("\n")[:-1] if tpl.code.endswith("\n") else tpl.code.split("\n")]
-        except T.ParseError as e:
-            res["compile"] = ["ParseError", _err_kind(e.message), e.filename, e.lineno]
-        except Exception as e:
-            res["compile"] = ["Raised", type(e).__name__]
-        if syntax:
-            res["syntax_error"] = syntax[0]
-        if tpl is not None and case.get("exec") and not syntax:
+        def one(name):
+            res = {}
+            tpl = None
+            nsyn = len(syntax)
             try:
-                out = tpl.generate(**env_kwargs(env if env is not None else STD_ENV))
-                res["render"] = ["out", out.hex()]
+                tpl = loader.load(name)
+                res["compile"] = ["code", tpl.code.split("\n")[:-1] if tpl.code.endswith("\n") else tpl.code.split("\n")]
+            except T.ParseError as e:
+                res["compile"] = ["ParseError", _err_kind(e.message), e.filename, e.lineno]
             except Exception as e:
-                res["render"] = ["Raised", type(e).__name__]
+                res["compile"] = ["Raised", type(e).__name__]
+            if len(syntax) > nsyn:
+                res["syntax_error"] = syntax[nsyn]
+            if tpl is not None and case.get("exec") and not syntax:
+                try:
+                    out = tpl.generate(**env_kwargs(env if env is not None else STD_ENV))
+                    res["render"] = ["out", out.hex()]
+                except Exception as e:
+                    res["render"] = ["Raised", type(e).__name__]
+            return res
+
+        # earlier loads on the SAME loader instance (the cache BaseLoader.templates is carried along), then the entry
+        pre = [one(name) for name in case.get("loads", [])]
+        res = one(case["entry"])
+        if pre:
+            res["pre"] = pre
         return res
     finally:
         T.Template._generate_python = orig
@@ -583,23 +860,31 @@ def run_impl(case):
         from tornado.template import filter_whitespace
         if case["op"] == "filter":
             return {"out": filter_whitespace(case["mode"], case["text"])}
+        if case["op"] == "resolve":
+            from tornado.template import DictLoader
+            return {"out": DictLoader({}).resolve_path(case["name"], parent_path=case["parent"])}
         return {"out": repr(bytes.fromhex(case["bytes"]))}
     return run_template(case)
 
 
 # ----------------------------------------------------------------------------------------------- model / spec
 def compile_line(case):
+    if case.get("loads"):
+        return line(ID, "compileseq", case["ws"], case["ae"], list(case["loads"]) + [case["entry"]], case["files"])
     return line(ID, "compile", case["ws"], case["ae"], case["entry"], case["files"])
 
 
-def render_line(case, env=None):
-    return line(ID, "render", case["ws"], case["ae"], case["entry"], case["files"], env_wire(env if env is not None else STD_ENV))
+def render_line(case, env=None, entry=None):
+    return line(ID, "render", case["ws"], case["ae"], entry if entry is not None else case["entry"], case["files"],
+                env_wire(env if env is not None else STD_ENV))
 
 
 def model_requests(case, impl):
     if case["kind"] == "prim":
         if case["op"] == "filter":
             return [line(ID, "filter", case["mode"], case["text"])]
+        if case["op"] == "resolve":
+            return [line(ID, "resolve", case["name"], case["parent"])]
         return [line(ID, "repr", bytes.fromhex(case["bytes"]))]
     return [compile_line(case)]
 
@@ -620,19 +905,31 @@ def norm_reply(reply):
     return out
 
 
+def _norm_outcome(o):
+    o = [str(x) if isinstance(x, Atom) else x for x in o]
+    if o[0] == "code":
+        # expressions may span lines: compare the source text, not the writer's calls
+        lines = ["".join(map(chr, x)) if isinstance(x, list) else x for x in o[1]]
+        return ["code", "\n".join(lines).split("\n")]
+    return o
+
+
 def model_result(case, replies):
+    if case["kind"] == "tpl" and case.get("loads"):
+        st, vals = parse_reply(replies[0])
+        assert st == "ok", replies[0]
+        return [_norm_outcome(o) for o in vals]        # one outcome per load, the entry last
     r = norm_reply(replies[0])
     if case["kind"] == "prim":
         return r[0]
-    if r[0] == "code":
-        # expressions may span lines: compare the source text, not the writer's calls
-        r = ["code", "\n".join(r[1]).split("\n")]
-    return r
+    return _norm_outcome(r)
 
 
 def impl_view(case, impl):
     if case["kind"] == "prim":
         return impl["out"]
+    if case.get("loads"):
+        return [p["compile"] for p in impl.get("pre", [])] + [impl["compile"]]
     return impl["compile"]
 
 
@@ -644,7 +941,10 @@ def spec_requests(case, impl):
         text = dict(map(tuple, case["files"]))[f["file"]]
         return [line(ID, "lineat", text, f["lo_off"]), line(ID, "lineat", text, f["hi_off"])]
     if case.get("exec") and case.get("valid") and "render" in impl:
-        return [render_line(case)]
+        # the language defines the output of a template from the loader's sources alone: every template loaded
+        # earlier on the same instance is interpreted on its own, and so is the entry
+        return [render_line(case)] + [render_line(case, entry=n) for n, p in zip(case.get("loads", []), impl.get("pre", []))
+                                      if "render" in p]
     return []
 
 
@@ -680,7 +980,18 @@ def spec_violation(case, impl, replies):
             want = norm_reply(replies[0])
             got = impl["render"]
             if want != got:
-                return "generate() gave %s, direct interpretation gives %s" % (_short(got), _short(want))
+                return "generate() gave %s, direct interpretation gives %s%s" % (
+                    _short(got), _short(want), " (after loading %s on the same loader)" % ", ".join(case["loads"]) if case.get("loads") else "")
+            k = 1
+            for n, p in zip(case.get("loads", []), impl.get("pre", [])):
+                if "render" in p:
+                    want = norm_reply(replies[k])
+                    k += 1
+                    if want != p["render"]:
+                        return "generate() of %s (loaded before the entry) gave %s, direct interpretation gives %s" % (
+                            n, _short(p["render"]), _short(want))
+                elif p["compile"][0] == "ParseError" or "syntax_error" in p:
+                    return "well-formed template %s (loaded before the entry) failed to compile: %s" % (n, p["compile"][1])
     return None
 
 
@@ -695,6 +1006,8 @@ def _short(r):
 
 def nontrivial(case, impl):
     if case["kind"] != "tpl":
+        if case.get("op") == "resolve":
+            return bool(case["parent"]) and "/" in (case["name"] + case["parent"])
         return len(case.get("text", case.get("bytes", ""))) > 2
     if impl["compile"][0] == "ParseError":
         return True
@@ -707,12 +1020,19 @@ def nontrivial(case, impl):
 def stats(case, impl):
     if case["kind"] == "prim":
         return ["kind:prim:" + case["op"]]
+    if case.get("loads") is not None:
+        pre_stat = ["loads:%d" % min(6, len(case["loads"]))]
+    else:
+        pre_stat = ["loads:none"]
     out = ["kind:" + ("valid" if case.get("valid") else "fault" if case.get("fault") else "mut" if case.get("mut") else "soup" if case.get("soup") else "edge")]
     c = impl["compile"]
     out.append("compile:" + c[0] + (":" + str(c[1]) if c[0] != "code" else ""))
     if "render" in impl:
         out.append("render:" + (impl["render"][0] if impl["render"][0] == "out" else impl["render"][1]))
-    out.append("files:%d" % len(case["files"]))
+    out.append("files:%d" % min(8, len(case["files"])))
+    out += pre_stat
+    if any("/" in f[0] for f in case["files"]):
+        out.append("names:dirs")
     out.append("ws:%s" % case["ws"])
     for f in case.get("feat", []):
         out.append("feat:" + f)
@@ -752,9 +1072,15 @@ def shrink(case):
                 nf[fi][1] = t[:i] + t[i + step:]
                 yield {**case, "files": nf}
         return
+    # generated cases: fewer earlier loads; drop files that are not referenced any more
+    for i in range(len(case.get("loads", []))):
+        yield {**case, "loads": case["loads"][:i] + case["loads"][i + 1:]}
     # generated cases: only drop files that are not referenced any more
+    keep = set()
+    for n in list(case.get("loads", [])) + [case["entry"]]:
+        keep |= reachable(files, n)
     for fi, (n, t) in enumerate(files):
-        if n != case["entry"] and not any(n in t2 for n2, t2 in files if n2 != n):
+        if n not in keep:
             yield {**case, "files": files[:fi] + files[fi + 1:]}
 
 
